@@ -21,24 +21,29 @@ type c09Shape struct {
 	src       string
 	finite    bool
 	childPool []bool // pooled flag of the k-th call()
+	recover   bool   // the VM runs with SetRecover(true) (an Eval session always does)
 }
 
 var c09Shapes = []c09Shape{
-	{"top-loop", "x := 0\nfor { x++ }\n", false, nil},
-	{"callee-loop", "f := func() { x := 0; for { x++ } }\nf()\n", false, nil},
-	{"child-loop", "f := func() { x := 0; for { x++ } }\ncall(f)\n", false, nil},
-	{"child-of-child", "g := func() { x := 0; for { x++ } }\nf := func() { return call(g) }\ncall(f)\n", false, nil},
-	{"child-catch-retry", "f := func() { x := 0; for { x++ } }\nfor { try { call(f) } catch e { log(e) } }\n", false, nil},
-	{"strings-map", "s := import(\"strings\")\ns.Map(func(c) { x := 0; for { x++ } }, \"abc\")\n", false, nil},
-	{"host-loop", "f := func(i) { return i + 1 }\ncallmany(f, 40)\nx := 0\nfor { x++ }\n", false, nil},
-	{"host-loop-nested", "g := func(i) { return i + 1 }\nf := func(i) { return call(g, i) }\ncallmany(f, 20)\nx := 0\nfor { x++ }\n", false, nil},
-	{"tail-recursion", "var f\nf = func(n) { return f(n + 1) }\nf(0)\n", false, nil},
-	{"selector-tail-recursion", "o := {}\no.spin = func(self, n) { return self.spin(self, n + 1) }\no.spin(o, 0)\n", false, nil},
-	{"iterator-loop", "a := [1, 2, 3]\nx := 0\nfor { for k, v in a { x += v } }\n", false, nil},
-	{"callrep-second-call-loops", "n := 0\nf := func() { n++; if n < 2 { return n }; x := 0; for { x++ } }\ncallrep(f, 3)\n", false, nil},
-	{"dispatcher-ignoring-errors", "f := func(i) { x := 0; for { x++ } }\ncallall(f, 4)\nx := 0\nfor { x++ }\n", false, nil},
-	{"nested-tries-loop", "x := 0\nfor { try { try { x++ } finally { x++ } } catch e { x = 0 } }\n", false, nil},
-	{"finite", "f := func(i) { return i + 1 }\nx := 0\nfor i := 0; i < 6; i++ { x = call(f, x) }\nreturn x\n", true, nil},
+	{"top-loop", "x := 0\nfor { x++ }\n", false, nil, false},
+	{"callee-loop", "f := func() { x := 0; for { x++ } }\nf()\n", false, nil, false},
+	{"child-loop", "f := func() { x := 0; for { x++ } }\ncall(f)\n", false, nil, false},
+	{"child-of-child", "g := func() { x := 0; for { x++ } }\nf := func() { return call(g) }\ncall(f)\n", false, nil, false},
+	{"child-catch-retry", "f := func() { x := 0; for { x++ } }\nfor { try { call(f) } catch e { log(e) } }\n", false, nil, false},
+	{"strings-map", "s := import(\"strings\")\ns.Map(func(c) { x := 0; for { x++ } }, \"abc\")\n", false, nil, false},
+	{"host-loop", "f := func(i) { return i + 1 }\ncallmany(f, 40)\nx := 0\nfor { x++ }\n", false, nil, false},
+	{"host-loop-nested", "g := func(i) { return i + 1 }\nf := func(i) { return call(g, i) }\ncallmany(f, 20)\nx := 0\nfor { x++ }\n", false, nil, false},
+	{"tail-recursion", "var f\nf = func(n) { return f(n + 1) }\nf(0)\n", false, nil, false},
+	{"selector-tail-recursion", "o := {}\no.spin = func(self, n) { return self.spin(self, n + 1) }\no.spin(o, 0)\n", false, nil, false},
+	{"iterator-loop", "a := [1, 2, 3]\nx := 0\nfor { for k, v in a { x += v } }\n", false, nil, false},
+	{"callrep-second-call-loops", "n := 0\nf := func() { n++; if n < 2 { return n }; x := 0; for { x++ } }\ncallrep(f, 3)\n", false, nil, false},
+	{"dispatcher-ignoring-errors", "f := func(i) { x := 0; for { x++ } }\ncallall(f, 4)\nx := 0\nfor { x++ }\n", false, nil, false},
+	{"nested-tries-loop", "x := 0\nfor { try { try { x++ } finally { x++ } } catch e { x = 0 } }\n", false, nil, false},
+	{"finite", "f := func(i) { return i + 1 }\nx := 0\nfor i := 0; i < 6; i++ { x = call(f, x) }\nreturn x\n", true, nil, false},
+	// loops that spend their time in recovered Go panics: every recovery re-enters the interpreter loop
+	{"recovered-host-panic-loop", "for { try { boom() } catch e { } }\n", false, nil, true},
+	{"recovered-operator-panic-loop", "z := 0\nfor { try { z = 1 % z } catch e { z = 0 } }\n", false, nil, true},
+	{"recovered-panic-in-child-loop", "f := func() { boom() }\nfor { try { call(f) } catch e { } }\n", false, nil, true},
 }
 
 const c09Bound = 256 // further VM instructions allowed after the last Abort returned
@@ -58,6 +63,9 @@ func pointName(p int) string {
 	}
 	return fmt.Sprint(p)
 }
+
+// boom(): a Go callback that panics.
+var c09Boom = &ugo.Function{Name: "boom", Value: func(args ...ugo.Object) (ugo.Object, error) { panic("boom") }}
 
 // callmany(f, n): a Go callback that invokes a script function repeatedly on
 // child VMs and stops at the first error, as a well-behaved host loop does.
@@ -185,7 +193,7 @@ func c09VM(rc *sim.RunCtx, shapeIdx int, pooledAll bool, pl *c09Placement) {
 		nAborts = 1 + t.Draw(3)
 	}
 	mm := newModuleMap(nil)
-	bc, err := compile(sim.PreludeCall+"global (callmany, callall)\n"+shape.src, mm, false, 0)
+	bc, err := compile(sim.PreludeCall+"global (callmany, callall, boom)\n"+shape.src, mm, false, 0)
 	if err != nil {
 		rc.Discard = "compile-error"
 		rc.Logf("compile: %v", err)
@@ -207,7 +215,8 @@ func c09VM(rc *sim.RunCtx, shapeIdx int, pooledAll bool, pl *c09Placement) {
 	w := sim.NewWorld(ws, nil)
 	w.Globals["callmany"] = c09CallMany(w, s)
 	w.Globals["callall"] = c09CallAll(w)
-	vm := ugo.NewVM(bc)
+	w.Globals["boom"] = c09Boom
+	vm := ugo.NewVM(bc).SetRecover(shape.recover)
 
 	var runErr error
 	var runRet ugo.Object
@@ -431,6 +440,7 @@ func c09Eval(rc *sim.RunCtx) {
 	w := sim.NewWorld(ws, nil)
 	w.Globals["callmany"] = c09CallMany(w, s)
 	w.Globals["callall"] = c09CallAll(w)
+	w.Globals["boom"] = c09Boom
 	mm := newModuleMap(nil)
 	ev := ugo.NewEval(ugo.CompilerOptions{ModuleMap: mm}, w.Globals)
 	ctx, cancel := context.WithCancel(context.Background())
@@ -439,7 +449,7 @@ func c09Eval(rc *sim.RunCtx) {
 	var err error
 	var follow string
 	mainTh := s.Go("eval", func() {
-		ret, _, err = ev.Run(ctx, []byte(sim.PreludeCall+"global (callmany, callall)\n"+shape.src))
+		ret, _, err = ev.Run(ctx, []byte(sim.PreludeCall+"global (callmany, callall, boom)\n"+shape.src))
 		if s.Killed() {
 			return
 		}
